@@ -10,6 +10,7 @@ HERE="$(cd "$(dirname "$0")/.." && pwd)"
 IDS="$*"
 [ -z "$IDS" ] && IDS=$(/venv/bin/python -c "import json; print(' '.join(json.load(open('$D/meta.json'))['properties']))")
 BASE=$(/venv/bin/python -c "import json; print(json.load(open('$D/meta.json')).get('base', ''))")
+[ -z "$BASE" ] && [ -n "${USE_SCRATCH:-}" ] && BASE=HEAD     # USE_SCRATCH=1: never touch /repo's working tree
 SCRATCH=$(mktemp -d)
 export VERIF_EVIDENCE_DIR="$SCRATCH/ev"; mkdir -p "$SCRATCH/ev"
 if [ -n "$BASE" ]; then
